@@ -43,7 +43,7 @@ func (verifQuietLogger) Info(...interface{})  {}
 func (verifQuietLogger) Error(...interface{}) {}
 func (verifQuietLogger) Recent(int) []string  { return nil }
 
-func verifEsc(s string) string {
+func verifAuthEsc(s string) string {
 	if s == "" {
 		return "-"
 	}
@@ -63,7 +63,7 @@ func verifEsc(s string) string {
 	return b.String()
 }
 
-func verifUnesc(s string) string {
+func verifAuthUnesc(s string) string {
 	if s == "-" {
 		return ""
 	}
@@ -88,7 +88,7 @@ func verifList(s string) []string {
 	}
 	var out []string
 	for _, it := range strings.Split(s, ",") {
-		out = append(out, verifUnesc(it))
+		out = append(out, verifAuthUnesc(it))
 	}
 	return out
 }
@@ -101,10 +101,10 @@ type verifRecorder struct {
 func (r *verifRecorder) add(kind, source string, fields ...string) {
 	esc := make([]string, len(fields))
 	for i, f := range fields {
-		esc[i] = verifEsc(f)
+		esc[i] = verifAuthEsc(f)
 	}
 	r.mu.Lock()
-	r.calls = append(r.calls, kind+":"+verifEsc(source)+":"+strings.Join(esc, ","))
+	r.calls = append(r.calls, kind+":"+verifAuthEsc(source)+":"+strings.Join(esc, ","))
 	r.mu.Unlock()
 }
 
@@ -126,7 +126,7 @@ type verifGK struct {
 }
 
 func verifTriple(name, renamed, prev string) string {
-	return verifEsc(name) + "|" + verifEsc(renamed) + "|" + verifEsc(prev)
+	return verifAuthEsc(name) + "|" + verifAuthEsc(renamed) + "|" + verifAuthEsc(prev)
 }
 
 func (g *verifGK) Recover() {
@@ -255,8 +255,8 @@ func verifAuthLoop() {
 			}
 			conf := &sts.ServerConf{
 				Dirs: &sts.ServerDirs{
-					Stage: verifUnesc(w[1]), Final: verifUnesc(w[2]), LogIn: verifUnesc(w[3]),
-					Serve: verifUnesc(w[4]), LogMsg: verifUnesc(w[5]),
+					Stage: verifAuthUnesc(w[1]), Final: verifAuthUnesc(w[2]), LogIn: verifAuthUnesc(w[3]),
+					Serve: verifAuthUnesc(w[4]), LogMsg: verifAuthUnesc(w[5]),
 				},
 				Server: &sts.HTTPServer{Host: "127.0.0.1", Port: port},
 			}
@@ -268,12 +268,12 @@ func verifAuthLoop() {
 			var pre []string
 			if ierr == nil {
 				for name, gk := range a.server.GateKeepers {
-					pre = append(pre, verifEsc(name)+"="+map[bool]string{true: "1", false: "0"}[gk.Ready()])
+					pre = append(pre, verifAuthEsc(name)+"="+map[bool]string{true: "1", false: "0"}[gk.Ready()])
 				}
 			}
 			runtime.GOMAXPROCS(prevProcs)
 			if ierr != nil {
-				reply("error " + verifEsc(ierr.Error()))
+				reply("error " + verifAuthEsc(ierr.Error()))
 				a = nil
 				continue
 			}
@@ -330,8 +330,8 @@ func verifAuthLoop() {
 			reply("bad-op")
 		case w[0] == "dirs" && len(w) == 5:
 			// dirs <stage> <final> <logs-in> <serve>: new directories, empty gatekeeper table
-			a.conf.Dirs.Stage, a.conf.Dirs.Final = verifUnesc(w[1]), verifUnesc(w[2])
-			a.conf.Dirs.LogIn, a.conf.Dirs.Serve = verifUnesc(w[3]), verifUnesc(w[4])
+			a.conf.Dirs.Stage, a.conf.Dirs.Final = verifAuthUnesc(w[1]), verifAuthUnesc(w[2])
+			a.conf.Dirs.LogIn, a.conf.Dirs.Serve = verifAuthUnesc(w[3]), verifAuthUnesc(w[4])
 			a.server.ServeDir = a.conf.Dirs.Serve
 			old := a.server.VerifSwapGateKeepers(map[string]sts.GateKeeper{})
 			for _, gk := range old {
@@ -346,19 +346,19 @@ func verifAuthLoop() {
 			a.conf.Keys = verifList(w[2])
 			reply("ok")
 		case w[0] == "stub" && len(w) == 3:
-			a.server.VerifSetGateKeeper(verifUnesc(w[1]),
-				&verifGK{source: verifUnesc(w[1]), ready: w[2] == "1", rec: rec})
+			a.server.VerifSetGateKeeper(verifAuthUnesc(w[1]),
+				&verifGK{source: verifAuthUnesc(w[1]), ready: w[2] == "1", rec: rec})
 			reply("ok")
 		case w[0] == "make" && len(w) == 2:
 			// create the real gatekeeper of a source through the real factory (as a first
 			// request would) without recording it
-			src := verifUnesc(w[1])
+			src := verifAuthUnesc(w[1])
 			if _, ok := a.server.VerifGetGateKeeper(src); !ok {
 				a.server.VerifSetGateKeeper(src, wrap(src, warm(factory(src))))
 			}
 			reply("ok")
 		case (w[0] == "stop" || w[0] == "recover" || w[0] == "recover-async" || w[0] == "ready" || w[0] == "inpipe") && len(w) == 2:
-			gk, ok := a.server.VerifGetGateKeeper(verifUnesc(w[1]))
+			gk, ok := a.server.VerifGetGateKeeper(verifAuthUnesc(w[1]))
 			if !ok || gk == nil {
 				reply("none")
 				continue
@@ -386,7 +386,7 @@ func verifAuthLoop() {
 			}
 		case w[0] == "gkdirs" && len(w) == 2:
 			// the directories of the gatekeeper a source already has
-			gk, ok := a.server.VerifGetGateKeeper(verifUnesc(w[1]))
+			gk, ok := a.server.VerifGetGateKeeper(verifAuthUnesc(w[1]))
 			if !ok || gk == nil {
 				reply("none")
 				continue
@@ -401,11 +401,11 @@ func verifAuthLoop() {
 				reply("error not-a-stage")
 				continue
 			}
-			reply(verifEsc(root) + " " + verifEsc(target) + " " + verifEsc(logRoot))
+			reply(verifAuthEsc(root) + " " + verifAuthEsc(target) + " " + verifAuthEsc(logRoot))
 		case w[0] == "view" && len(w) == 3:
 			// what the sender of a source is told right now: GetFileStatus of each name and the
 			// partials (the two calls routeValidate and routePartials forward), unrecorded
-			gk, ok := a.server.VerifGetGateKeeper(verifUnesc(w[1]))
+			gk, ok := a.server.VerifGetGateKeeper(verifAuthUnesc(w[1]))
 			if !ok || gk == nil {
 				reply("none")
 				continue
@@ -418,7 +418,7 @@ func verifAuthLoop() {
 			var sb strings.Builder
 			fmt.Fprintf(&sb, "ready=%v", v.inner.Ready())
 			for _, n := range verifList(w[2]) {
-				fmt.Fprintf(&sb, " %s=%d", verifEsc(n), v.inner.GetFileStatus(n, time.Now()))
+				fmt.Fprintf(&sb, " %s=%d", verifAuthEsc(n), v.inner.GetFileStatus(n, time.Now()))
 			}
 			type scanned struct {
 				js  []byte
@@ -434,7 +434,7 @@ func verifAuthLoop() {
 				if sc.err != nil {
 					sb.WriteString(" scan-error")
 				} else {
-					sb.WriteString(" " + verifEsc(string(sc.js)))
+					sb.WriteString(" " + verifAuthEsc(string(sc.js)))
 				}
 			case <-time.After(5 * time.Second):
 				sb.WriteString(" scan-held")
@@ -448,17 +448,17 @@ func verifAuthLoop() {
 				reply(strings.Join(c, " "))
 			}
 		case w[0] == "valid" && len(w) == 3:
-			reply(map[bool]string{true: "1", false: "0"}[a.standardValidator(verifUnesc(w[1]), verifUnesc(w[2]))])
+			reply(map[bool]string{true: "1", false: "0"}[a.standardValidator(verifAuthUnesc(w[1]), verifAuthUnesc(w[2]))])
 		case w[0] == "srcdirs" && len(w) == 2:
 			// the directories the real newStage closure gives a source
-			gk := factory(verifUnesc(w[1]))
+			gk := factory(verifAuthUnesc(w[1]))
 			root, target, logRoot, ok := verifStageDirs(gk)
 			gk.Stop(true)
 			if !ok {
 				reply("error not-a-stage")
 				continue
 			}
-			reply(verifEsc(root) + " " + verifEsc(target) + " " + verifEsc(logRoot))
+			reply(verifAuthEsc(root) + " " + verifAuthEsc(target) + " " + verifAuthEsc(logRoot))
 		case w[0] == "quit":
 			reply("ok")
 			return
